@@ -369,7 +369,7 @@ def run_C07(ctx):
             texts.append(("".join(chr(97 + x % 26) for x in a), "".join(chr(97 + x % 26) for x in b)))
     for o, n in texts:
         for alg in ALGS:
-            for entry in ("timeout", "timeout_reuse", "timeout_clone", "deadline_then_timeout", "timeout_then_deadline",
+            for entry in ("real_past", "real_future", "timeout", "timeout_reuse", "timeout_clone", "deadline_then_timeout", "timeout_then_deadline",
                           "deadline", "capture", "capture_slices",
                           "algo", "algo_slices", "inline"):
                 if entry == "inline" and "\n" not in o:
